@@ -59,8 +59,8 @@ MUST_COUNT = ["contract_evals_hist_rescale", "contract_evals_hist_scale_computed
               "contract_evals_add", "contract_evals_set_nevents", "contract_cells_compared",
               "graph_points_compared", "iterator_cells_compared", "csv_rows_parsed",
               "rejections_observed"]
-MIN_NONTRIVIAL = {"quick": 5000, "thorough": 200000}
-NCASES = {"quick": 12000, "thorough": 500000}
+MIN_NONTRIVIAL = {"quick": 5000, "thorough": 150000}
+NCASES = {"quick": 12000, "thorough": 400000}
 LEVEL_TEXT = ("Seeded random exploration; every call of the real histogram.scale/add/"
               "set_nevents and graph.scale is judged by a contract with exact rational "
               "arithmetic (4 ulp per cell, forward-error bound for the recomputed integral), "
@@ -276,6 +276,7 @@ def run_case(r, obs):
     import lena.flow
     import lena.output
     import lena.structures
+    con.attach()        # idempotent; --replay runs a case without setup_worker
     try:
         {"hscale": _hscale, "gscale": _gscale, "add": _add, "nevents": _nevents,
          "conv": _conv, "csv": _csv, "bad_coord": _bad_coord,
